@@ -130,7 +130,8 @@ def menu(M, seen):
         if ok_key(M.get(names[0])):
             for kind in ("left_join", "inner_join", "semi_join", "anti_join", "full_join"):
                 add({"op": kind})
-            add({"op": "count", "by": [names[0]]})
+            if names[0] != "n":
+                add({"op": "count", "by": [names[0]]})
         add({"op": "rbind_self"})
         add({"op": "rbind_partner"})
         if n >= 1:
@@ -138,17 +139,18 @@ def menu(M, seen):
             add({"op": "cbind", "rows": 1})
             add({"op": "update", "rows": n})
         add({"op": "cbind", "rows": n + 1})
-        add({"op": "modify", "name": "m", "form": "vector"})
+        mname = fresh(M, "m")
+        add({"op": "modify", "name": mname, "form": "vector"})
         add({"op": "modify", "name": names[0], "form": "vector"})
-        add({"op": "modify", "name": "m", "form": "callable"})
-        add({"op": "modify", "name": "m", "form": "wrong"})
+        add({"op": "modify", "name": mname, "form": "callable"})
+        add({"op": "modify", "name": mname, "form": "wrong"})
         if n >= 1:
-            add({"op": "modify", "name": "m", "form": "scalar"})
-            add({"op": "modify", "name": "m", "form": "len1"})
+            add({"op": "modify", "name": mname, "form": "scalar"})
+            add({"op": "modify", "name": mname, "form": "len1"})
         add({"op": "select", "cols": list(reversed(names))})
         add({"op": "select", "cols": [names[0]]})
         add({"op": "unselect", "cols": [names[0]]})
-        add({"op": "rename", "map": {"n1": names[0]}})
+        add({"op": "rename", "map": {fresh(M, "n1"): names[0]}})
         if k >= 2:
             add({"op": "rename", "map": {names[1]: names[0], names[0]: names[1]}})
     # in-place edits
@@ -167,11 +169,14 @@ def menu(M, seen):
     if k:
         add({"op": "pop", "name": names[0]})
         add({"op": "popitem"})
-        add({"op": "colnames", "new": [f"x{i}" for i in range(k)]})
+        xs = [f"x{i}" for i in range(k)]
+        if not set(xs) & set(names):
+            add({"op": "colnames", "new": xs})
+            if k >= 2:
+                add({"op": "colnames", "new": ["x0"]})  # shorter list: only the first column is renamed
         add({"op": "colnames", "new": list(names)})
         if k >= 2:
             add({"op": "colnames", "new": list(reversed(names))})
-            add({"op": "colnames", "new": ["x0"]})
     for nm in sorted(seen - set(names)):
         add({"op": "setitem", "name": nm, "form": "vector"})
     return ops
@@ -204,23 +209,33 @@ def vec_from_cells(cells):
     return di.Vector(list(cells))
 
 
-def partner(M):
-    """Two-row partner sharing the first column's name: rows 1,0 of the state (or fewer) plus a new column z."""
+def fresh(M, base):
+    """A column name not used by the state (menu-introduced names must not collide with existing ones)."""
+    name, i = base, 2
+    while M.has(name):
+        name, i = f"{base}{i}", i + 1
+    return name
+
+
+def partner(M, d=None):
+    """Two-row partner sharing the first column's name and dtype: rows 1,0 of the state (or fewer) plus a new column z."""
     name = M.names[0]
     c = M.get(name)
     keys = list(reversed(c[:2]))
-    P = T([[name, keys], ["z", [100 + i for i in range(len(keys))]]])
-    if not keys:
+    z = fresh(M, "z")
+    P = T([[name, keys], [z, [100 + i for i in range(len(keys))]]])
+    if d is None:
         return None, P
-    d = di.DataFrame({name: vec_from_cells(keys), "z": [100 + i for i in range(len(keys))]})
-    return d, P
+    key = np.array(np.asarray(dict.__getitem__(d, name))[:2][::-1])  # a fresh array of the same dtype
+    p = di.DataFrame({name: key, z: np.array([100 + i for i in range(len(keys))], dtype="int64")})
+    return p, P
 
 
 def side_frame(M, rows, with_existing):
     cols = []
     if with_existing and M.ncol:
         cols.append([M.names[0], [300 + i for i in range(rows)]])
-    cols.append(["y", [200 + i for i in range(rows)]])
+    cols.append([fresh(M, "y"), [200 + i for i in range(rows)]])
     P = T(cols)
     d = di.DataFrame({n: np.array(c, dtype="int64") for n, c in cols})
     return d, P
@@ -300,18 +315,14 @@ def apply_real(d, M, op):
     if o == "sort":
         return d.sort(**{op["col"]: op["dir"]}), []
     if o in ("left_join", "inner_join", "semi_join", "anti_join", "full_join"):
-        p, _ = partner(M)
-        if p is None:
-            p = di.DataFrame({M.names[0]: d[M.names[0]][:0], "z": np.array([], dtype="int64")})
+        p, _ = partner(M, d)
         return getattr(d, o)(p, M.names[0]), [p]
     if o == "count":
         return d.count(*op["by"]), []
     if o == "rbind_self":
         return d.rbind(d), []
     if o == "rbind_partner":
-        p, _ = partner(M)
-        if p is None:
-            p = di.DataFrame()
+        p, _ = partner(M, d)
         return d.rbind(p), [p]
     if o in ("cbind", "update"):
         p, _ = side_frame(M, op["rows"], o == "update")
@@ -637,10 +648,13 @@ def explore(init, prefix, depth, rec, clauses, op_filter=None):
     def case_of_factory(history):
         return lambda op: {"init": init, "history": history + [op]}
 
-    try:
-        d0, M0, seen0 = replay(init, prefix)
-    except Exception:
-        return  # the prefix itself fails: reported by the shard that owns the prefix's last step
+    if prefix:
+        # The prefix must itself be a clean history; if it is not, the shard owning its last step reports it.
+        from mc.harness import Rec
+        probe = Rec("probe")
+        if check_history({"init": init, "history": list(prefix)}, probe, {"C01", "C06", "C09"}) is None or probe.vcount:
+            return
+    d0, M0, seen0 = replay(init, prefix)
     visited = {state_key(d0, seen0)}
     rec.state(state_key(d0, seen0))
     frontier = [list(prefix)]
